@@ -143,6 +143,10 @@ Proof.
       destruct (civil_from_days dn) as [[y m] d]. lia.
 Qed.
 
+Theorem years_1_9999 : forall n,
+  (TS_MIN <= n <= TS_MAX <-> 1 <= year_of (day_of_dt n) <= 9999) /\ (TS_MIN <= n <= TS_MAX -> dt_ok n = true).
+Proof. intro n. split; [exact (years_1_9999_range n) | exact (years_1_9999_accepted n)]. Qed.
+
 (* ------------------------------------------------------------------------------------- *)
 (* 4. Z_to_str prints every digit                                                          *)
 (* ------------------------------------------------------------------------------------- *)
@@ -361,6 +365,30 @@ Lemma shown_zone_default cfg vs fs :
   assoc (s "timezone") fs = None -> shown_zone cfg vs fs = cf_tz cfg.
 Proof. intros Ha. unfold shown_zone, get_timezone, field_token. rewrite Ha. reflexivity. Qed.
 
+Theorem to_unixtime_cases : forall (vs : vars F) (fs : fields F),
+  (forall d z, field_is vs "data" fs (IDate d z) ->
+     to_unixtime vs fs = Ok (Some (TNumber (fofZ (86400 * d)) Raw))) /\
+  (forall t z, field_is vs "data" fs (IDateTime t z) ->
+     to_unixtime vs fs = Ok (Some (TNumber (fofZ t) Raw))) /\
+  (forall t z, field_is vs "data" fs (ITime t z) ->
+     to_unixtime vs fs = Ok (Some (TNumber (fofZ t) Raw))).
+Proof.
+  intros vs fs. repeat split; intros; eapply to_unixtime_exact; try eassumption; reflexivity.
+Qed.
+
+Theorem from_unixtime_cases : forall (cfg : config F) (vs : vars F) (fs : fields F) x nt,
+  field_is vs "number" fs (INumber x nt) ->
+  from_unixtime cfg vs fs =
+    Ok (if dt_ok (as_i64 x) then Some (TDateTime (as_i64 x) (shown_zone cfg vs fs)) else None) /\
+  (assoc (s "timezone") fs = None -> shown_zone cfg vs fs = cf_tz cfg) /\
+  (forall ti n o, assoc (s "timezone") fs = Some ti -> ti_ty ti = Some (TTimezone n o) ->
+     shown_zone cfg vs fs = {| tz_name := to_uppercase n; tz_off := o |}).
+Proof.
+  intros cfg vs fs x nt H. split; [exact (from_unixtime_exact cfg vs fs x nt H) | split ].
+  - exact (shown_zone_default cfg vs fs).
+  - intros ti n o. exact (shown_zone_requested cfg vs fs ti n o).
+Qed.
+
 (* N -> date-time -> N *)
 Theorem roundtrip_number : forall cfg vs fs n nt,
   field_is vs "number" fs (INumber (fofZ n) nt) -> as_i64 (fofZ n) = n -> dt_ok n = true ->
@@ -460,7 +488,7 @@ Qed.
 
 (* binary64, the executed instance: checked on a family of timestamps - the day borders of
    +-3 days around the epoch, around +-2^31 and +-2^32, the first and last second of the years
-   1..9999, 2^53 - and on every second of four windows of 4097 seconds *)
+   1..9999, 2^53 - and on every second of four windows of 8193 seconds *)
 Definition f64_keeps (n : Z) : bool := @as_i64 float NumF64 (fofZ n) =? n.
 
 Definition f64_family : list Z :=
@@ -473,20 +501,29 @@ Lemma f64_family_ok : forallb f64_keeps f64_family = true.
 Proof. vm_compute. reflexivity. Qed.
 
 Lemma f64_windows_ok :
-  forall_range f64_keeps (-2048) 4097 && forall_range f64_keeps (2 ^ 31 - 2048) 4097 &&
-  forall_range f64_keeps (TS_MIN - 2048) 4097 && forall_range f64_keeps (TS_MAX - 2048) 4097 = true.
-Proof. vm_compute. reflexivity. Qed.
+  forall_range f64_keeps (-4096) 8193 = true /\ forall_range f64_keeps (2 ^ 31 - 4096) 8193 = true /\
+  forall_range f64_keeps (TS_MIN - 4096) 8193 = true /\ forall_range f64_keeps (TS_MAX - 4096) 8193 = true.
+Proof. split; [ | split; [ | split] ]; vm_cast_no_check (eq_refl true). Qed.
+
+(* the first and the last second of every year 1..9999 *)
+Definition year_start (y : Z) : Z := 86400 * days_from_civil y 1 1.
+Lemma f64_years_ok :
+  forall_range (fun y => f64_keeps (year_start y) && f64_keeps (year_start (y + 1) - 1)) 1 9999 = true.
+Proof. vm_cast_no_check (eq_refl true). Qed.
 
 Definition in_f64_checked (n : Z) : Prop :=
-  In n f64_family \/ -2048 <= n <= 2048 \/ 2 ^ 31 - 2048 <= n <= 2 ^ 31 + 2048 \/
-  TS_MIN - 2048 <= n <= TS_MIN + 2048 \/ TS_MAX - 2048 <= n <= TS_MAX + 2048.
+  In n f64_family \/ (exists y, 1 <= y <= 9999 /\ (n = year_start y \/ n = year_start (y + 1) - 1)) \/ -4096 <= n <= 4096 \/ 2 ^ 31 - 4096 <= n <= 2 ^ 31 + 4096 \/
+  TS_MIN - 4096 <= n <= TS_MIN + 4096 \/ TS_MAX - 4096 <= n <= TS_MAX + 4096.
 
 Theorem as_i64_fofZ_f64 : forall n, in_f64_checked n -> @as_i64 float NumF64 (fofZ n) = n.
 Proof.
   intros n H. apply Z.eqb_eq. change (f64_keeps n = true).
-  pose proof f64_windows_ok as W. rewrite !Bool.andb_true_iff in W. destruct W as [[[W1 W2] W3] W4].
-  destruct H as [H | [H | [H | [H | H] ] ] ].
+  destruct f64_windows_ok as (W1 & W2 & W3 & W4).
+  destruct H as [H | [H | [H | [H | [H | H] ] ] ] ].
   - exact (proj1 (forallb_forall _ _) f64_family_ok n H).
+  - destruct H as (y & Hy & Hn).
+    pose proof (forall_range_spec _ _ _ f64_years_ok y ltac:(lia)) as Hc. cbv beta in Hc.
+    apply Bool.andb_true_iff in Hc. destruct Hc as [Ha Hb]. destruct Hn as [-> | ->]; assumption.
   - apply (forall_range_spec _ _ _ W1). lia.
   - apply (forall_range_spec _ _ _ W2). lia.
   - apply (forall_range_spec _ _ _ W3). unfold TS_MIN in *. lia.
@@ -575,3 +612,152 @@ Theorem examples :
   item_print default_config (s "en") 2026 (INumber (fofZ 4102444800) Raw) = Ok (s "4102444800") /\
   dt_ok 4102444800 = true /\ dt_ok (-62135596800) = true /\ dt_ok (2 ^ 62) = false.
 Proof. vm_compute. repeat split; reflexivity. Qed.
+
+(* ------------------------------------------------------------------------------------- *)
+(* 7. '<date> at <time>' and the zone of the time                                          *)
+(* ------------------------------------------------------------------------------------- *)
+(* a time written as wall clock w in a zone off minutes east denotes, on the UTC date `today`,
+   the instant today*86400 + w - 60*off.  at_date keeps the UTC time of day of that instant.
+   Shown in the same zone the result reads (d, w) exactly when w - 60*off stays inside the
+   UTC day; otherwise the day shown is one off (refuted below: reported as a finding). *)
+Definition time_instant (today w off : Z) : Z := dt_of today w - 60 * off.
+Definition at_result (d t : Z) : Z := 86400 * d + secs_of_day t.
+
+Theorem at_time_wall_clock : forall d today w off,
+  0 <= w < 86400 -> 0 <= w - 60 * off < 86400 ->
+  day_of_dt (local_of (at_result d (time_instant today w off)) off) = d /\
+  secs_of_day (local_of (at_result d (time_instant today w off)) off) = w.
+Proof.
+  intros d today w off Hw Hin. unfold at_result, time_instant, local_of, dt_of, day_of_dt, secs_of_day.
+  assert (E : (today * 86400 + w - 60 * off) mod 86400 = w - 60 * off).
+  { replace (today * 86400 + w - 60 * off) with (w - 60 * off + today * 86400) by lia.
+    rewrite Z_mod_plus_full. apply Z.mod_small. exact Hin. }
+  rewrite E. split.
+  - replace (86400 * d + (w - 60 * off) + 60 * off) with (w + d * 86400) by lia.
+    rewrite Z_div_plus_full by lia. rewrite Z.div_small by lia. lia.
+  - replace (86400 * d + (w - 60 * off) + 60 * off) with (w + d * 86400) by lia.
+    rewrite Z_mod_plus_full. apply Z.mod_small. lia.
+Qed.
+
+Theorem at_time_wall_clock_utc : forall d today w,
+  0 <= w < 86400 ->
+  day_of_dt (at_result d (time_instant today w 0)) = d /\ secs_of_day (at_result d (time_instant today w 0)) = w.
+Proof.
+  intros d today w Hw. pose proof (at_time_wall_clock d today w 0 Hw ltac:(lia)) as H.
+  unfold local_of in H. rewrite Z.mul_0_r, Z.add_0_r in H. exact H.
+Qed.
+
+(* `12 march 2020 at 01:00` under the default zone GMT+3 is shown on 13 March *)
+Theorem at_time_wall_clock_refuted :
+  exists d today w off, 0 <= w < 86400 /\
+    day_of_dt (local_of (at_result d (time_instant today w off)) off) = d + 1.
+Proof. exists 18333, 20000, 3600, 180. split; [lia | vm_compute; reflexivity]. Qed.
+
+(* ------------------------------------------------------------------------------------- *)
+(* 8. the rules as configured, and the whole executable pipeline                           *)
+(* ------------------------------------------------------------------------------------- *)
+From SC.Gen Require Import ConfigData.
+From SC.Model Require Import Api Corr FloatIO.
+
+Theorem rule_tables :
+  option_map (assoc (s "from_unixtime")) (assoc (s "en") d_rule_texts)
+  = Some (Some [s "{NUMBER:number} {GROUP:conversion:conversion_group} date";
+                s "{NUMBER:number} {GROUP:conversion:conversion_group} {TIMEZONE:timezone}";
+                s "{NUMBER:number} {TIMEZONE:timezone}";
+                s "{NUMBER:number} date"]) /\
+  option_map (assoc (s "to_unixtime")) (assoc (s "en") d_rule_texts)
+  = Some (Some [s "{DATETIME_DATE_TIME:data} {GROUP:conversion:conversion_group} {TEXT:type:unix}";
+                s "{DATETIME_DATE_TIME:data} {GROUP:conversion:conversion_group} {TEXT:type:unixtime}";
+                s "{DATETIME_DATE_TIME:data} {GROUP:conversion:conversion_group} {TEXT:type:unixtimestamp}";
+                s "{DATETIME_DATE_TIME:data} {TEXT:type:unix}";
+                s "{DATETIME_DATE_TIME:data} {TEXT:type:unixtime}";
+                s "{DATETIME_DATE_TIME:data} {TEXT:type:unixtimestamp}"]) /\
+  option_map (assoc (s "at_date")) (assoc (s "en") d_rule_texts)
+  = Some (Some [s "{DATE:source} at {NUMBER_OR_TIME:time}"]).
+Proof. vm_compute. repeat split; reflexivity. Qed.
+
+Definition CK : clock := {| ck_today := 20000; ck_year := 2024 |}.
+
+(* per line: the printed text and the result as a token *)
+Definition run_cfg (cfg : config float) (text : str) : list (option (str * option (token float))) :=
+  match exec64 CK cfg (s "en") text with
+  | Ok r => map (fun l => match l with
+                          | Some o => match lo_result o with
+                                      | LOk out a => Some (out, ast_as_token a)
+                                      | _ => None
+                                      end
+                          | None => None
+                          end) (er_lines r)
+  | Panic _ => []
+  end.
+
+Definition is_dt (r : option (str * option (token float))) (n : Z) (tz : tzinfo) : bool :=
+  match r with
+  | Some (o, Some (TDateTime t z)) =>
+    str_eqb o (datetime_print default_config (s "en") (ck_year CK) n tz) && (t =? n) && tz_eqb z tz
+  | _ => false
+  end.
+
+Definition is_raw (r : option (str * option (token float))) (n : Z) : bool :=
+  match r with
+  | Some (o, Some (TNumber x Raw)) => str_eqb o (Z_to_str n) && (f64_to_bits x =? f64_to_bits (f64_of_Z n))
+  | _ => false
+  end.
+
+Definition nl : str := [10%N].
+
+Definition run_lines (text : str) := run_cfg default_config text.
+
+(* `x = N to date` / `x as unix` / `N to EST` / `N to date as unix` through the lexer, the rules,
+   the interpreter and the formatter: the date-time of N in the zone, and N again, every digit *)
+Definition e2e (n : Z) : bool :=
+  match run_lines (s "x = " ++ Z_to_str n ++ s " to date" ++ nl ++ s "x as unix" ++ nl ++
+             Z_to_str n ++ s " to EST" ++ nl ++ Z_to_str n ++ s " to date as unix") with
+  | [a; b; c; d] => is_dt a n UTC && is_raw b n && is_dt c n EST && is_raw d n
+  | _ => false
+  end.
+
+Definition e2e_family : list Z :=
+  [0; 1; -1; 86399; 86400; -86400; -86401; 1609459200; 4102444800; 2147483647; 2147483648; -2147483648; -2147483649;
+   4294967296; TS_MIN; TS_MAX; TS_MIN + 86399; TS_MAX - 86399; 1700000000; 1704067200; 1735689599].
+
+Theorem e2e_ok : forallb e2e e2e_family = true.
+Proof. vm_compute. reflexivity. Qed.
+
+(* `<date> as unix`, `<date> at H as unix`, an hour of 24 declined *)
+Theorem e2e_dates :
+  match run_lines (s "12/03/2020 as unix" ++ nl ++ s "12 march 2020 at 10 as unix" ++ nl ++ s "1 january 1 as unix" ++ nl ++
+             s "31 december 9999 at 23 to unixtime" ++ nl ++ s "12 march 2020 at 24") with
+  | [a; b; c; d; e] =>
+    is_raw a 1583971200 && is_raw b 1584007200 && is_raw c TS_MIN && is_raw d (TS_MAX - 3599) &&
+    match e with None => true | Some _ => false end
+  | _ => false
+  end = true.
+Proof. vm_compute. reflexivity. Qed.
+
+(* the same under a configured default zone (SmartCalc::set_timezone): the instant and the
+   timestamp do not move, the text is that of the zone; a date is still its midnight UTC *)
+Definition cfg_zone (name : str) : config float :=
+  match set_timezone default_config name with
+  | Some (n, o) => set_fmt default_config (cf_money default_config) (cf_number default_config)
+                     (cf_percent default_config) (cf_dsep default_config) (cf_tsep default_config)
+                     {| tz_name := n; tz_off := o |}
+  | None => default_config
+  end.
+
+Definition e2e_zone (z : string * Z) (n : Z) : bool :=
+  let tz := {| tz_name := s (fst z); tz_off := snd z |} in
+  match run_cfg (cfg_zone (s (fst z)))
+          (s "x = " ++ Z_to_str n ++ s " to date" ++ nl ++ s "x as unix" ++ nl ++ s "12/03/2020 as unix" ++ nl ++
+           s "12/03/2020 at 10 as unix" ++ nl ++ Z_to_str n ++ s " to UTC") with
+  | [a; b; c; d; e] => is_dt a n tz && is_raw b n && is_raw c 1583971200 && is_raw d 1584007200 && is_dt e n UTC
+  | _ => false
+  end.
+
+Definition e2e_zones : list (string * Z) :=
+  [("GMT+3", 180); ("EST", -300); ("GMT-3:30", -210); ("GMT+14", 840); ("GMT-12", -720); ("HKT", 480)]%string.
+
+Theorem e2e_zones_ok :
+  forallb (fun z => forallb (e2e_zone z) [0; -1; 86399; 1609459200; 4102444800; -2147483649; TS_MIN; TS_MAX])
+          e2e_zones = true.
+Proof. vm_compute. reflexivity. Qed.
